@@ -15,6 +15,7 @@ import Tdgl.Handler
 import Tdgl.Options
 import Tdgl.Param
 import Tdgl.H5
+import Tdgl.DeviceEq
 import Tdgl.Screening
 import Tdgl.Schedule
 import Tdgl.Fields
@@ -188,6 +189,18 @@ def h5cmd : List String → String
     s!"keys={keysOf s} restorable={H5.isRestorable s}"
   | _ => "bad-op"
 
+/-- a device for `deveq`: attrs = "name length_units layer film probe(-|hash)", polygons = "name=hash …"
+    (the hash stands for the polygon's vertex data and mesh flag, the layer hash for its seven constants) -/
+def devOf (attrs holes terms : String) : Option (H5.DevRec String) :=
+  let polys (s : String) : List (String × H5.PolyRec String) :=
+    (toks s).map (fun t => match t.splitOn "=" with
+      | [n, h] => (n, ⟨some n, "m", h⟩)
+      | _ => (t, ⟨none, "m", ""⟩))
+  match toks attrs with
+  | [n, lu, layer, film, probe] =>
+    some ⟨n, lu, ⟨layer, "", "", "", "", "", none⟩, ⟨some "film", "m", film⟩, polys terms, polys holes, optS probe⟩
+  | _ => none
+
 def step (st : St) (line : String) : St × String :=
   let secs := (line.trimAscii.toString.splitOn "|").map (fun s => s.trimAscii.toString)
   match secs with
@@ -250,6 +263,10 @@ def step (st : St) (line : String) : St × String :=
       | none => (st, "fuel")
       | some e => (st, showRun (.done e.frames e.state))
     | "h5" :: args, [] => (st, h5cmd args)
+    | ["deveq"], [aa, ah, at_, ba, bh, bt] =>
+      match devOf aa ah at_, devOf ba bh bt with
+      | some a, some d => (st, s!"eq={H5.devEq a d} guard={(H5.seedGuard a d).isNone}")
+      | _, _ => (st, "bad-op")
     | ["kernA"], [jx, jy, area, sx, sy, cx, cy] =>
       -- A_induced for every edge centre, both components, evaluated in a permuted outer order
       let (jxA, jyA, aA, sxA, syA, cxA, cyA) := (floats jx, floats jy, floats area, floats sx, floats sy, floats cx, floats cy)
